@@ -145,6 +145,27 @@ def cases(ctx, budget):
             subj = "".join(rng.choice(chars) for _ in range(rng.randint(1, 3)))
         yield mk(rng.random() < 0.5, subj, pat, "class-stress")
         yield Case({"pattern": pat}, [15] + wire.enc_str(pat), wire.enc_str(map_re(pat)), None, None, True, "map_re")
+    # histories on one function object: a valid pattern that matches, then an invalid / non-string pattern twice, then another subject
+    for _ in range((300 if ctx.quick else 10000) * budget):
+        p = regexp(rng, 2)
+        subj = "".join(rng.choice(SUBJ) for _ in range(rng.randint(0, 3)))
+        search = rng.random() < 0.5
+        f = fs if search else fm
+        first = mk(search, subj, p, "history")
+        yield first
+        bad = rng.choice(list(INVALID) + [1, None, True, 2.5, [], {}, ["a"]])
+        results = []
+        for _k in range(3):
+            try: results.append(f(subj, bad))
+            except Exception as ex: results.append(repr(ex))
+        ok = all(r is False for r in results)
+        yield Case({"function": "search" if search else "match", "history": [[subj, p], [subj, repr(bad)], [subj, repr(bad)], [subj, repr(bad)]], "results": repr(results)},
+                   None, [1 if ok else 9], [118, 0], None, True, "history", True,
+                   (lambda a, b, ok=ok, r=results: None if ok else "invalid / non-string pattern after a valid one: results %r, all must be False" % (r,)))
+        again = mk(search, subj, p, "history")
+        if again.impl_out != first.impl_out:
+            yield Case({"function": "search" if search else "match", "subject": subj, "pattern": p, "first": first.impl_out, "again": again.impl_out}, None, [9], [118, 0], None, True,
+                       "history", True, lambda a, b: "the same call gives a different result after other calls")
     seen = set()
     for i in range(n):
         p = regexp(rng, 2)
